@@ -271,7 +271,7 @@ func randCode6(rng *rand.Rand) int {
 
 // randMsg6 builds a message (relayDepth 0) or a relay chain around one.
 func randMsg6(rng *rand.Rand, depth int, relayDepth int) dhcpv6.DHCPv6 {
-	m := &dhcpv6.Message{MessageType: dhcpv6.MessageType(pick(rng, 1, 2, 3, 7, 11, 0, 14, 255, 1+rng.Intn(11)))}
+	m := &dhcpv6.Message{MessageType: dhcpv6.MessageType(pick(rng, 1, 2, 3, 7, 11, 0, 14, 20, 21, 255, 1+rng.Intn(11), 14+rng.Intn(242)))}
 	copy(m.TransactionID[:], randBytes(rng, 3))
 	for k := pick(rng, 0, 1, 2, 3, 5, rng.Intn(21)); k > 0; k-- {
 		c := randCode6(rng)
@@ -367,6 +367,24 @@ func genC02(o *Out, rng *rand.Rand, tier string) {
 			copy(m.TransactionID[:], randBytes(rng, 3))
 			m.AddOption(randOpt6(rng, c, 2))
 			emit(m, "single-option")
+		}
+	}
+	// every message type the first octet can name (relay types apart), with transaction ids of all shapes, alone and
+	// behind a relay: the header is carried verbatim whatever the type means
+	for mt := 0; mt < 256; mt++ {
+		if mt == 12 || mt == 13 {
+			continue
+		}
+		for _, xid := range [][]byte{{0xff, 0xff, 0xff}, {0x7f, 0x00, 0x01}, randBytes(rng, 3)} {
+			m := &dhcpv6.Message{MessageType: dhcpv6.MessageType(mt)}
+			copy(m.TransactionID[:], xid)
+			m.AddOption(dhcpv6.OptElapsedTime(0))
+			if mt%3 == 0 {
+				r, _ := dhcpv6.EncapsulateRelay(m, dhcpv6.MessageTypeRelayForward, net.ParseIP("2001:db8::1"), net.ParseIP("fe80::1"))
+				emit(r, "message-types")
+			} else {
+				emit(m, "message-types")
+			}
 		}
 	}
 	// numeric fields swept densely: a conversion that is wrong for a few per cent of the values (floating point, a
@@ -790,6 +808,36 @@ func genC06v6(o *Out, rng *rand.Rand, tier string) {
 				}
 				fix6(o, append([]byte{7, 1, 2, 3, byte(c >> 8), byte(c), byte(L >> 8), byte(L)}, p...), "per-option-length")
 			}
+		}
+	}
+	// numeric fields swept densely, written byte by byte: every 16-bit value of the fields that hold one (thinned out in
+	// the quick tier), 32-bit second counts around every power of two
+	{
+		step := 41
+		if tier == "thorough" {
+			step = 1
+		}
+		for u := 0; u < 65536; u += step {
+			hi, lo := byte(u>>8), byte(u)
+			fix6(o, []byte{5, 1, 2, 3, 0, 8, 0, 2, hi, lo}, "numeric-sweep")                // elapsed time
+			fix6(o, []byte{5, 1, 2, 3, 0, 61, 0, 2, hi, lo}, "numeric-sweep")               // client architecture
+			fix6(o, []byte{5, 1, 2, 3, 0, 13, 0, 3, hi, lo, 'x'}, "numeric-sweep")          // status code
+			fix6(o, []byte{5, 1, 2, 3, 0, 6, 0, 4, hi, lo, lo, hi}, "numeric-sweep")        // requested options
+			fix6(o, []byte{5, 1, 2, 3, 0, 99, 0, 4, hi, lo, lo, hi}, "numeric-sweep")       // 4RD non-map rule: flags, traffic class, PMTU
+			fix6(o, []byte{5, 1, 2, 3, 0, 62, 0, 3, hi, lo, hi ^ lo}, "numeric-sweep")      // network interface id
+		}
+		for k := 0; k < 32*4; k++ {
+			v := uint32(1)<<uint(k/4) + uint32(k%4) - 2
+			b := []byte{byte(v >> 24), byte(v >> 16), byte(v >> 8), byte(v)}
+			fix6(o, append([]byte{5, 1, 2, 3, 0, 32, 0, 4}, b...), "numeric-sweep") // information refresh time
+			ia := append(append(append([]byte{1, 2, 3, 4}, b...), b[3], b[2], b[1], b[0]), 0, 5, 0, 24)
+			ia = append(append(append(ia, make([]byte, 16)...), b...), b[1], b[0], b[3], b[2])
+			fix6(o, append([]byte{5, 1, 2, 3, 0, 3, 0, byte(len(ia))}, ia...), "numeric-sweep") // IA_NA T1/T2, address lifetimes
+			pf := append(append(append([]byte{}, b...), b[2], b[3], b[0], b[1]), 64)
+			pf = append(pf, 0x20, 1, 0xd, 0xb8, 0, 0, 0, 0, 0, 0, 0, 0, 0, 0, 0, 0)
+			pd := append(append([]byte{4, 3, 2, 1}, b...), b...)
+			pd = append(append(pd, 0, 26, 0, byte(len(pf))), pf...)
+			fix6(o, append([]byte{5, 1, 2, 3, 0, 25, 0, byte(len(pd))}, pd...), "numeric-sweep") // IA_PD, prefix lifetimes
 		}
 	}
 	// an embedded DHCPv4 packet (option 87) whose name fields are full, without NUL: cut on re-encode (allowed normalisation)
